@@ -93,6 +93,21 @@ def post_c08(ctx):
                         f"{len(hh_i)} history/history non-conflicts"]}
 
 
+def post_c12(ctx):
+    """validate every recorded scheduler trace with the model (Conc.validate)"""
+    extra = []
+    n = 0
+    for r in ctx["results"]:
+        impl = r["ops_file"][:-4] + ".impl"
+        tf = impl + ".traces"
+        if os.path.exists(tf):
+            res = ctx["compare_recorded"](ctx["pid"], tf, "traces")
+            n += res["n_ops"]
+            extra.append(res)
+    return {"extra_results": extra, "traces_validated_against_model": n,
+            "samples": [open(extra[0]["ops_file"]).readline().strip()[:300]] if extra and extra[0]["n_ops"] else []}
+
+
 COMMON_ASSUME = [
     "BLAKE3 idealised as a free term algebra (collision-free; no digest equals a structured preimage fragment)",
     "the correspondence run is differential testing: as strong as its generators (distribution in coverage)",
@@ -172,6 +187,35 @@ PROPS = {
                 "database as it is at that moment (after committing the pending records when a transaction is open)",
         "assumptions": ["cache timing is over-approximated in the model by a nondeterministic evict step enabled iff cleaning is enabled",
                         "the model's atomic step is one storage-manager call (single task)"],
+    },
+    "C11": {
+        "thm_module": ["AkdModel.Thm.C11", "AkdModel.Thm.C13"],
+        "theorems": ["Akd.C11." + t for t in ["partial_commit_invisible", "partial_commit_invisible_all", "full_commit_visible",
+                                              "insert_in_txn_keeps_db", "new_keys_invisible"]]
+                    + ["Akd.C13.snapshot_read", "Akd.C13.write_preserves"],
+        "streams": ["l1.partial"],
+        "rule": "for publishes that create nodes, split existing ones (decompression) and update labels — first publish, inserts, "
+                "updates, mixed, on deeper trees, both configurations — the real commit batch is captured and, starting from the "
+                "pre-publish snapshot, EVERY prefix of its node/value records in batch order and in reverse order, plus all subsets "
+                "(small batches) or random subsets in random order, is written record by record with the epoch record withheld; on "
+                "each partial database a fresh ReadOnlyDirectory and a fresh Directory are opened and the oracle checks: epoch hash = "
+                "the previous one, every label's lookup and complete history verify against the previous root with the previous "
+                "results, the audit of all epochs verifies; after all records incl. the epoch record the new epoch is served completely",
+        "assumptions": ["record-level atomicity of the storage layer (a record is written completely or not at all)"],
+    },
+    "C12": {
+        "thm_module": ["AkdModel.Thm.C12"],
+        "theorems": [],
+        "streams": ["l1.sched"],
+        "post": post_c12,
+        "rule": "two and three publish calls on clones of one real Directory run as tasks on a current-thread runtime over a "
+                "database wrapper that grants every storage call its turn, so a schedule (a word over task ids) fixes the "
+                "execution; ALL schedules with at most 2 (thorough: 3) preemptions are enumerated by stateless depth-first "
+                "search, for disjoint labels, the same label, update+insert and three publishers, cached and uncached; oracle on "
+                "the real outcomes: calls that changed the directory got distinct consecutive epochs, every returned (epoch, root) "
+                "equals the serial execution of the successful batches in epoch order, the final database equals it, no "
+                "transaction is left open; every explored run's storage-call trace is validated by the model (Conc.validate)",
+        "assumptions": ["preemption inside in-memory sections on a multi-thread runtime (DashMap shards, relaxed atomics) is not in the model"],
     },
     "C13": {
         "thm_module": ["AkdModel.Thm.C13"],
